@@ -83,6 +83,10 @@ func (info *DeviceInformationBlock) Pack(buffer []byte) {
 	buf := make([]byte, friendlyNameMaxLen)
 	util.PackString(buf, friendlyNameMaxLen, info.FriendlyName)
 
+	// The hardware address field is always 6 bytes wide.
+	var hardwareAddr [6]byte
+	copy(hardwareAddr[:], info.HardwareAddr)
+
 	util.PackSome(
 		buffer,
 		uint8(info.Size()), uint8(info.Type),
@@ -91,7 +95,7 @@ func (info *DeviceInformationBlock) Pack(buffer []byte) {
 		uint16(info.ProjectIdentifier),
 		info.SerialNumber[:],
 		info.RoutingMulticastAddress[:],
-		[]byte(info.HardwareAddr),
+		hardwareAddr[:],
 		buf,
 	)
 }
